@@ -530,7 +530,7 @@ psSize_t tls13ParseSupportedVersions(ssl_t *ssl,
     }
     dataLen = *p; p++;
     len--;
-    if (dataLen != len)
+    if (dataLen != len || (dataLen & 1))
     {
         psTraceErrr("Malformed supported_versions extension\n");
         goto out_decode_error;
